@@ -84,7 +84,7 @@ func (a c12Adapter) Canon(p c12kit.Pool) string {
 
 var (
 	c12Quick    = c12kit.Bounds{NTx: 3, Peers: []int{1}, MaxFlight: 2, Depth: 6, BlockMax: 2, Submit: true}
-	c12Thorough = c12kit.Bounds{NTx: 4, Peers: []int{1, 2}, MaxFlight: 2, Depth: 8, BlockMax: 2, OrderedBlk: true, Submit: true}
+	c12Thorough = c12kit.Bounds{NTx: 4, Peers: []int{1, 2}, MaxFlight: 2, Depth: 7, BlockMax: 2, OrderedBlk: true, Submit: true}
 )
 
 func TestVerifC12V0Seq(t *testing.T) {
